@@ -172,7 +172,15 @@ CHECKS = {
         "note": "Derived key values are not computed; block numbers beyond 2^32 are outside RFC 8018; HMAC is C12.",
         "technique": "finite-class symbolic path summaries with uninterpreted HMAC events; generic iterations of the block and chain loops",
     },
+    "C15": {
+        "text": "Hash_DRBG structure on every path: instantiate, reseed and feed are the documented Hash_df chains (constant header bytes, the working value V absorbed byte for byte, then the new "
+                "material, then C = Hash_df(0x00 | V)) with the counter reset/incremented as documented; generate, per generic iteration with and without the automatic reseed and per block length "
+                "1..32: output = leading bytes of Hash(V), H = Hash(3 | V), V' = V + H + C + counter as a big-endian 256-bit sum (exact support sets plus evaluation of the bit-level terms on corner and "
+                "pseudo-random assignments). Hash calls are uninterpreted events with fresh outputs.",
+        "note": "Output values are not computed (hash: C10/C11); reseed placement is C16; the sum is checked for counters below 2^31.",
+        "technique": "symbolic path summaries with uninterpreted hash events; bit-level term evaluation for the 256-bit addition",
+    },
 }
 
-_NB = "not built yet in this session (design exists in DESIGN.md; claimed only once its check fires on broken variants and is silent on the unchanged tree)"
-NOT_APPLICABLE = {p: _NB for p in ["C15"]}
+_NB_OLD = "not built yet in this session (design exists in DESIGN.md; claimed only once its check fires on broken variants and is silent on the unchanged tree)"
+NOT_APPLICABLE = {}
